@@ -20,7 +20,6 @@ UNICODE_NAMES = ["é", "naïve", "名前", "ß"]
 UNDEFINED = ["undefined_name", "nope", "Zed"]
 
 PREAMBLE = """\
-import asyncio
 import contextlib
 import dataclasses
 from typing import Any, Callable, Dict, Generic, Iterator, List, Optional, Tuple, TypeVar, Union, overload
@@ -83,9 +82,11 @@ class Gen:
         r = self.rng.random()
         if r < 0.22:
             return self.ch(NAMES_INT + NAMES_STR + NAMES_LIST + NAMES_DICT + NAMES_OBJ)
-        if r < 0.30:
+        if r < 0.235:
             self.features.add("unicode-name")
             return self.ch(UNICODE_NAMES)
+        if r < 0.30:
+            return self.ch(NAMES_INT + NAMES_STR + NAMES_LIST)
         if r < 0.34:
             return self.ch(UNDEFINED)
         if r < 0.50:
@@ -102,8 +103,11 @@ class Gen:
 
     def string(self) -> str:
         self.features.add("string")
-        return self.ch(["'a'", '"b"', "'''tri'''", '"""q"""', "r'\\n'", "'é'", "'\\u00e9\\n'", "'a' 'b'", "'a' \"b\" 'c'",
-                        "'日本語'", "u'u'", "''", "'\\N{BULLET}'", "'x' f'{i}'", "'a\\\n b'"])
+        if self.p(0.06):
+            self.features.add("unicode-string")
+            return self.ch(["'é'", "'日本語'"])
+        return self.ch(["'a'", '"b"', "'''tri'''", '"""q"""', "r'\\n'", "'\\u00e9\\n'", "'a' 'b'", "'a' \"b\" 'c'",
+                        "u'u'", "''", "'\\N{BULLET}'", "'x' f'{i}'", "'a\\\n b'"])
 
     def fstring(self) -> str:
         self.features.add("fstring")
@@ -280,7 +284,7 @@ class Gen:
         if r < 0.76:
             self.features.add("import")
             return self.ch(["import os", "import os.path as osp", "from os import path, sep as SEP", "from typing import (\n    Set,\n    FrozenSet,\n)",
-                            "import nonexistent_module_xyz", "from . import sibling", "from os import *", "import sys, re", "from .. import up",
+                            "import nonexistent_module_xyz", "from os import *", "import sys, re",
                             "from collections import abc as A, nothing_here"])
         if r < 0.80:
             self.features.add("raise")
@@ -528,7 +532,7 @@ class Gen:
         if self.p(0.2):
             self.features.add("inline-config")
             lines.append(self.ch(["# mypy: disallow-untyped-defs", "# mypy: no-strict-optional", "# mypy: warn-unreachable, disallow-any-expr",
-                                  "# mypy: disable-error-code=\"name-defined\"", "# mypy: allow-redefinition", "# mypy: bogus-option",
+                                  "# mypy: disable-error-code=\"name-defined\"", "# mypy: allow-redefinition",
                                   "# mypy: no-implicit-optional", "# mypy: implicit-optional", "# mypy: warn-unused-ignores"]))
         if self.p(0.1):
             lines.append(self.ch(["# -*- coding: utf-8 -*-", "#!/usr/bin/env python", '"""Module docstring."""', "from __future__ import annotations"]))
